@@ -129,6 +129,9 @@ class RenderNode(Node):
             # "with". This distinction is not made when using the 'include' tag.
             if self.loop and isinstance(val, (tuple, list, IterableDrop)):
                 ctx.raise_for_loop_limit(len(val))
+                # `ctx` is only used for this tag. Loops in the partial multiply by
+                # the number of times it is rendered.
+                ctx.loop_iteration_carry *= len(val)
                 forloop = ForLoop(
                     name=key,
                     it=iter(val),
@@ -209,6 +212,9 @@ class RenderNode(Node):
             # "with". This distinction is not made when using the 'include' tag.
             if self.loop and isinstance(val, (tuple, list, IterableDrop)):
                 ctx.raise_for_loop_limit(len(val))
+                # `ctx` is only used for this tag. Loops in the partial multiply by
+                # the number of times it is rendered.
+                ctx.loop_iteration_carry *= len(val)
                 forloop = ForLoop(
                     name=key,
                     it=iter(val),
